@@ -46,15 +46,16 @@ Vals(kind) ==
   ELSE IF kind = "bin" THEN {<<>>, <<0, 255>>}
   ELSE IF kind = "qos" THEN {0, 1, 2}
   ELSE IF kind = "subid" THEN {1, MaxVBI}
-  ELSE {5}                                                    \* protocol version stays 5
+  ELSE {4, 5}                                                 \* protocol version: the default and MQTT 3.1.1's (accessors only: outside the C01 domain)
 
 (* the call alphabet of type t: <<method, args>> *)
 Alphabet(t) ==
   LET o == NewObs(t)
       plain == UNION {{<<m, <<x>>>> : x \in Vals(KeyKind[PlainKey[m]])} :
-                        m \in {m \in DOMAIN PlainKey : PlainKey[m] \in DOMAIN o /\ PlainKey[m] # "ProtocolName"}}
+                        m \in {m \in DOMAIN PlainKey : PlainKey[m] \in DOMAIN o}}
       ups == IF "UserProperties" \in DOMAIN o
-             THEN {<<"AddUserProp", <<Txt(1), Txt(2)>>>>, <<"AddUserProp", <<Txt(2), <<>>>>>>} ELSE {}
+             THEN {<<"AddUserProp", <<Txt(1), Txt(2)>>>>, <<"AddUserProp", <<Txt(2), <<>>>>>>,
+                   <<"AddUserProp", <<Txt(3), Txt(1), Txt(1), Txt(3)>>>>} ELSE {}      \* (two pairs in one call)
       spec == IF t = 1 THEN {<<"SetUsername", <<x>>>> : x \in {<<>>, Txt(3)}} \cup {<<"SetPassword", <<x>>>> : x \in {<<>>, <<1, 2>>}}
                             \cup {<<"SetCleanStart", <<x>>>> : x \in BOOLEAN} \cup {<<"SetWill", <<[h |-> g]>>>> : g \in {2, 3, 4}}
               ELSE IF t = 2 THEN {<<"SetSessionPresent", <<x>>>> : x \in BOOLEAN}
